@@ -145,6 +145,9 @@ func DirectiveEntries() map[string]Entry {
 		"commodity-space":         {Kind: EntryCommodity, Sym: "USD", Format: "1 000.00 USD"},
 		"commodity-quoted":        {Kind: EntryCommodity, Sym: "x y", Quoted: true, Format: `1,000.00 "x y"`},
 		"commodity-fmt":           {Kind: EntryCommodityFmt, Sym: "EUR", Format: "1.000,00 EUR"},
+		"account-trailing-blank":  {Kind: EntryAccount, Account: "assets:cash", Trail: " "},
+		"commodity-nonascii":      {Kind: EntryCommodity, Sym: "руб", Format: "1.000,00 руб", Trail: "  "},
+		"commodity-trailing-tab":  {Kind: EntryCommodity, Sym: "EUR", Format: "1.000,00 EUR", Trail: "\t"},
 		"include":                 {Kind: EntryInclude, Path: "sub/other.journal"},
 		"include-glob":            {Kind: EntryInclude, Path: "sub/*.journal"},
 		"include-trailing-blanks": {Kind: EntryInclude, Path: "sub/other.journal", Trail: "  "},
@@ -189,6 +192,17 @@ func Deviations() []Dev {
 			p.Trail = "  "
 		}
 	})
+	add("trailing-posting", "1 space", func(j *Journal) {
+		if p := p0(j); p != nil {
+			p.Trail = " "
+		}
+	})
+	add("trailing-posting", "1 space on the second", func(j *Journal) {
+		if p := p1(j); p != nil {
+			p.Trail = " "
+		}
+	})
+	add("trailing-header", "1 space", func(j *Journal) { tx0(j).Trail = " " })
 	add("trailing-posting", "tab", func(j *Journal) {
 		if p := p1(j); p != nil {
 			p.Trail = "\t"
